@@ -9,7 +9,7 @@ from vlib import log
 FOCUS = {
     "C01": dict(gens=[("file", 22), ("keys", 20)], quick=80, thorough=1500, what="export/tamper/import histories over two wallets"),
     "C02": dict(gens=[("core", 16), ("keys", 16)], quick=50, thorough=1500, what="all wallet calls with restart projection after every step"),
-    "C03": dict(gens=[("core", 16), ("file", 20)], quick=80, thorough=1500, what="passphrase arguments of every class; secrets in memory while locked"),
+    "C03": dict(gens=[("core", 16), ("file", 20), ("keys", 18)], quick=85, thorough=1500, what="passphrase arguments of every class; secrets in memory while locked"),
     "C04": dict(gens=[("core", 14), ("file", 14), ("keys", 16)], quick=55, thorough=800, what="clear-text scan of store, exports and log after every step"),
     "C05": dict(gens=[("core", 16), ("keys", 22)], quick=90, thorough=1200, what="every issued key signs verifiably iff unlocked, also after export / delete / import"),
     "C06": dict(gens=[("core", 16), ("file", 16), ("keys", 18)], quick=55, thorough=800, what="plot-key issuance interleaved with everything else"),
@@ -186,7 +186,7 @@ def run(prop, tier, seed):
         b, w = vlib.tlc_generate(d, "WalletGen.tla", cfg, n, depth, seed + 31 * gi)
         behs += b
     behs = vlib.dedup(behs)
-    behs = behs[:((220 if prop == "C12" else 160) if tier == "quick" else 4000)]
+    behs = behs[:({"C12": 220, "C03": 255}.get(prop, 160) if tier == "quick" else 4000)]
     if prop == "C12":
         behs = vlib.dedup(expand_faults(behs, 500 if tier == "quick" else 5000))
     # C02 is anchored in poc/wallet/wallet.go too: every fourth restart projection opens the copied store the way the node
